@@ -457,7 +457,23 @@ impl GroupAggregator {
             | (GroupAggregator::StandardDeviation { sum: Value::Int(sum), .. }, Value::Int(value)) => {
                 sum.checked_add(*value).ok_or(ExecutionError::NumericOverflow)?;
             }
+            (GroupAggregator::Sum(Value::Interval(sum)), Value::Interval(value))
+            | (GroupAggregator::Average { sum: Value::Interval(sum), .. }, Value::Interval(value))
+            | (GroupAggregator::StandardDeviation { sum: Value::Interval(sum), .. }, Value::Interval(value)) => {
+                sum.checked_add(value).ok_or(ExecutionError::NumericOverflow)?;
+            }
             _ => {}
+        }
+
+        if let (GroupAggregator::StandardDeviation { sum_square, .. }, Value::Interval(value)) = (&*self, &column_value) {
+            let square = match value.num_microseconds() {
+                Some(microseconds) => microseconds.checked_mul(microseconds).map(|square| IntervalType::microseconds(square)),
+                None => value.num_milliseconds().checked_mul(value.num_milliseconds()).and_then(|square| IntervalType::try_milliseconds(square))
+            }.ok_or(ExecutionError::NumericOverflow)?;
+
+            if let Value::Interval(sum_square) = sum_square {
+                sum_square.checked_add(&square).ok_or(ExecutionError::NumericOverflow)?;
+            }
         }
 
         if let (GroupAggregator::StandardDeviation { sum_square, .. }, Value::Int(value)) = (&*self, &column_value) {
